@@ -15,7 +15,7 @@ from harness import common, par, refscope, sitegen
 def gen_case(rng):
     scenario = rng.choice(['links', 'links', 'redirect-other-host', 'redirect-rejected-path', 'redirect-above-parent',
                            'robots-redirect-other-host', 'requisite-other-host', 'start-url-redirects-above-parent',
-                           'rejected-start-url'])
+                           'rejected-start-url', 'rerun-same-database'])
     opts = {'recursive': True, 'level': rng.choice([0, 2, 3]), 'page_requisites': rng.random() < 0.6,
             'page_requisites_level': 5,
             'no_parent': scenario in ('redirect-above-parent', 'start-url-redirects-above-parent') or rng.random() < 0.2,
@@ -67,6 +67,16 @@ def build(case):
         start.location = ('/d1/private.html', 'http://a.test/d1/private.html')
         site.add(sitegen.Page('http://a.test/d1/private.html', 'leaf'))
         site.start = start.url
+    elif sc == 'rerun-same-database':
+        # history: a first run meets a link to another host (not followed); a second run on the same database starts from
+        # a page that also links to that host
+        ext = sitegen.Page('http://b.test/first-run-link.html', 'leaf')
+        other.add(ext)
+        site.pages[site.start].links.append({'href': ext.url, 'kind': 'a', 'target': ext.url, 'spelling': 'absolute'})
+        second = site.add(sitegen.Page('http://a.test/second-start.html', 'html'))
+        ext2 = sitegen.Page('http://b.test/second-run-link.html', 'leaf')
+        other.add(ext2)
+        second.links.append({'href': ext2.url, 'kind': 'a', 'target': ext2.url, 'spelling': 'absolute'})
     elif sc == 'requisite-other-host':
         img = sitegen.Page('http://b.test/pic.png', 'img')
         other.add(img)
@@ -131,6 +141,9 @@ def run_case(case, part):
             # even its robots.txt
             argv.insert(1, 'http://b.test/forbidden/start.html')
         res = crawl.run_app(argv, {'a.test': addrs[0], 'b.test': addrs[1]})
+        if sc == 'rerun-same-database' and not res['crashed']:
+            argv2 = argv_for(opts, 'http://a.test/second-start.html', db, tmp)
+            res = crawl.run_app(argv2, {'a.test': addrs[0], 'b.test': addrs[1]})
         rows = crawl.read_table(db) if os.path.exists(db) else []
         log = srv.log.snapshot()
     finally:
@@ -212,14 +225,15 @@ def run_case(case, part):
             part.count('crawl_redirect_hops_in_scope')
     # the link records the filters were evaluated with must describe the real discovery (depth, inline depth, parent,
     # root): a record that claims an embedding where the page merely links (or a smaller depth) defeats the rules
-    starts = {site.start} | ({'http://b.test/forbidden/start.html'} if sc == 'rejected-start-url' else set())
+    starts = {site.start} | ({'http://b.test/forbidden/start.html'} if sc == 'rejected-start-url' else set()) | \
+        ({'http://a.test/second-start.html'} if sc == 'rerun-same-database' else set())
     for url, row in rowmap.items():
         if url in starts:
             # a start URL is its own root (and parent) at depth 0
             if row['root'] != url or row['level'] != 0 or row['inline_level']:
                 part.violation('row-metadata-wrong/start-url', {'row': row}, replay)
             continue
-        problems = sitegen.row_metadata_problems(url, row, rowmap, all_pages, site.start)
+        problems = sitegen.row_metadata_problems(url, row, rowmap, all_pages, row['root'] if row['root'] in starts else site.start)
         if problems:
             part.violation('row-metadata-wrong/' + '+'.join(problems), {'row': row, 'start': site.start}, replay)
         else:
